@@ -447,6 +447,22 @@ func VxC14Checkpoint() {
 			vx.Assert("unsealed-checkpoint-is-followed-by-a-boundary-snapshot-under-the-write-lock", snapUnderLock)
 		}
 	}
+	// A TRUNCATE checkpoint (the other blocking modes leave the old frames in the file,
+	// where verify finds them) that did run but whose follow-up failed (the bookkeeping
+	// write was refused, the boundary snapshot could not be written) has reset the WAL
+	// after a copy that was not sealed: whatever the application committed in between
+	// is in the database file only. The next round must not take the shorter WAL for
+	// the aftermath of a completed checkpoint of litestream's own: it re-snapshots.
+	// (only when nothing was copied after the checkpoint ran: the last recorded step is the PRAGMA)
+	ckptRan := len(vxProtoLog) > 0 && vxProtoLog[len(vxProtoLog)-1].kind == "ckpt"
+	if err != nil && ckptRan && restart && mode == CheckpointModeTruncate && exec.state.lastSyncedWALOffset > WALHeaderSize {
+		// the position the last copy recorded, as the last level-0 file would hold it
+		last := &vxLTX{level: 0, min: 1, max: 1, commit: 2, ts: 1000, pages: []vxPg{{1, 1}, {2, 2}}}
+		vx.FSWriteFile(db.LTXPath(0, 1, 1), vxEncodeLTXWAL(last, WALHeaderSize, exec.state.lastSyncedWALOffset-WALHeaderSize, 0, 0))
+		exec.pos = ltx.Pos{TXID: 1}
+		info, verr := db.verifyWithExecutorReal(context.Background(), exec)
+		vx.Assert("after-a-blocking-checkpoint-whose-follow-up-failed-the-next-round-re-snapshots", verr != nil || info.snapshotting)
+	}
 	vx.ObserveBool("ok", err == nil)
 }
 
